@@ -80,13 +80,18 @@ def classify_c12(how, ident, home_changed, target_exists, executed):
 
 
 def classify_c18(text, rc, out, err):
-    """KF-C18-NAMETOOLONG.  Predicate: the test case contains a word of more than 255 characters (longer than NAME_MAX) that is used as
+    """Two findings.  KF-C18-NAMETOOLONG.  Predicate: the test case contains a word of more than 255 characters (longer than NAME_MAX) that is used as
     a file name.  Defect model: the existence check (pathlib stat) raises OSError errno 36 "File name too long", which is not translated
     and surfaces as INTERNAL_ERROR (exit 129) with that OSError in the traceback; nothing else is wrong."""
     import re
-    if not is_known('KF-C18-NAMETOOLONG'):
-        return None
-    if rc == 129 and out == 'INTERNAL_ERROR\n' and 'File name too long' in err and 'OSError: [Errno 36]' in err \
+    if is_known('KF-C18-NAMETOOLONG') and rc == 129 and out == 'INTERNAL_ERROR\n' and 'File name too long' in err and 'OSError: [Errno 36]' in err \
             and re.search(r'[^\s/]{256,}', text):
         return 'KF-C18-NAMETOOLONG'
+    # KF-C18-NUL.  Predicate: the test case contains a NUL character.  Defect model: the word is used as (part of) a file name; the first OS call
+    # that gets it (stat, chdir, open, mkdir, ...) raises ValueError "embedded null byte", which is not translated and surfaces as INTERNAL_ERROR
+    # (exit 129) with exactly that ValueError as the last line of the traceback; nothing else is wrong.
+    if is_known('KF-C18-NUL') and rc == 129 and out == 'INTERNAL_ERROR\n' and '\x00' in text:
+        last = [l for l in err.split('\n') if l.strip()][-1:] or ['']
+        if last[0].strip() in ('ValueError: embedded null byte', 'embedded null byte'):  # (the second form: reported while the file is parsed, no traceback)
+            return 'KF-C18-NUL'
     return None
